@@ -12,7 +12,7 @@
 use crate::model::{hex, Model};
 use crate::report::{Report, Violation};
 use crate::rng::Rng;
-use darklua_core::verif_hooks::filter_pattern_matches;
+use darklua_core::verif_hooks::{filter_pattern_matches, filter_pattern_matches_many};
 use darklua_core::{process, Configuration, Options, Resources};
 use serde::{Deserialize, Serialize};
 use serde_json::{json, Value};
@@ -63,6 +63,15 @@ fn real_match(pattern: &str, path: &str) -> Result<bool, String> {
     }
 }
 
+/// one pattern, compiled once, against all paths
+fn real_row(pattern: &str, paths: &[String]) -> Result<Vec<bool>, String> {
+    let refs: Vec<&Path> = paths.iter().map(|p| Path::new(p.as_str())).collect();
+    match std::panic::catch_unwind(|| filter_pattern_matches_many(pattern, &refs)) {
+        Ok(r) => r,
+        Err(_) => Err("panic".to_owned()),
+    }
+}
+
 fn glob_chunk(patterns: &[String], paths: &[String]) -> GlobStats {
     let mut model = Model::spawn();
     let mut stats = GlobStats {
@@ -99,12 +108,16 @@ fn glob_chunk(patterns: &[String], paths: &[String]) -> GlobStats {
             }
             row if row.len() == paths.len() && row.chars().all(|c| "01-".contains(c)) => {
                 stats.ok_patterns += 1;
-                for (path, c) in paths.iter().zip(row.chars()) {
+                let real_all = real_row(pattern, paths);
+                for (i, (path, c)) in paths.iter().zip(row.chars()).enumerate() {
                     if c == '-' {
                         continue;
                     }
                     stats.compared += 1;
-                    let real = real_match(pattern, path);
+                    let real = match &real_all {
+                        Ok(v) => Ok(v[i]),
+                        Err(e) => Err(e.clone()),
+                    };
                     let spec = c == '1';
                     if spec {
                         stats.matches_true += 1;
@@ -254,7 +267,7 @@ struct Tree {
     pool: &'static [&'static str],
 }
 
-const TREES: &[Tree] = &[
+const STATIC_TREES: &[Tree] = &[
     Tree {
         name: "root",
         input: "",
@@ -299,6 +312,90 @@ const TREES: &[Tree] = &[
         pool: &["**", "a.lua", "src/x/a.lua", "**/a.lua", "src/*", "src/**", "x/**", "src/x/*", "*/*/*", "*/*"],
     },
 ];
+
+/// owned form (static trees + seeded random trees)
+struct TreeO {
+    name: String,
+    input: String,
+    files: Vec<String>,
+    work: Vec<(String, String)>,
+    pool: Vec<String>,
+}
+
+static ALL_TREES: std::sync::OnceLock<Vec<TreeO>> = std::sync::OnceLock::new();
+
+fn trees() -> &'static [TreeO] {
+    ALL_TREES.get().expect("trees not initialised")
+}
+
+/// a random tree of Lua files below the root (input ""), with a pattern pool derived from its paths
+fn random_tree(rng: &mut Rng, index: usize) -> TreeO {
+    let dirs = ["src", "lib", "a", "b", "x y", "deep"];
+    let names = ["a.lua", "b.lua", "init.lua", "c.luau", "ab.lua", "a b.lua"];
+    let mut files: Vec<String> = Vec::new();
+    let n = 4 + rng.below(4);
+    let mut guard = 0;
+    while files.len() < n && guard < 100 {
+        guard += 1;
+        let depth = rng.below(4);
+        let mut parts: Vec<&str> = (0..depth).map(|_| *rng.pick(&dirs)).collect();
+        parts.push(*rng.pick(&names));
+        let path = parts.join("/");
+        // a file cannot also be a directory of another file
+        if files.iter().any(|f| *f == path || f.starts_with(&format!("{}/", path)) || path.starts_with(&format!("{}/", f))) {
+            continue;
+        }
+        files.push(path);
+    }
+    files.sort();
+    let mut pool: Vec<String> = vec!["**".into(), "*".into(), "*.lua".into(), "**/*.lua".into(), "nomatch/**".into(), "**/*.luau".into()];
+    for f in &files {
+        let comps: Vec<&str> = f.split('/').collect();
+        let base = comps[comps.len() - 1];
+        let mut candidates = vec![f.clone(), format!("**/{}", base)];
+        if comps.len() > 1 {
+            let dir = comps[..comps.len() - 1].join("/");
+            candidates.push(format!("{}/**", dir));
+            candidates.push(format!("{}/*", dir));
+            candidates.push(format!("{}/**/{}", comps[0], base));
+            candidates.push(format!("{}/**", comps[0]));
+            let mut starred = comps.clone();
+            let i = rng.below(comps.len());
+            starred[i] = "*";
+            candidates.push(starred.join("/"));
+            candidates.push(format!("**/{}/**", comps[comps.len() - 2]));
+        }
+        let stem_q: String = base.chars().enumerate().map(|(i, c)| if i == 0 { '?' } else { c }).collect();
+        candidates.push(format!("**/{}", stem_q));
+        for c in candidates {
+            if !pool.contains(&c) && pool.len() < 28 {
+                pool.push(c);
+            }
+        }
+    }
+    let work = files.iter().map(|f| (f.clone(), f.clone())).collect();
+    let mut all_files = files.clone();
+    all_files.push("readme.md".into());
+    TreeO { name: format!("random-{}", index), input: String::new(), files: all_files, work, pool }
+}
+
+fn init_trees(seed: u64, n_random: usize) {
+    let mut all: Vec<TreeO> = STATIC_TREES
+        .iter()
+        .map(|t| TreeO {
+            name: t.name.to_owned(),
+            input: t.input.to_owned(),
+            files: t.files.iter().map(|x| x.to_string()).collect(),
+            work: t.work.iter().map(|(a, b)| (a.to_string(), b.to_string())).collect(),
+            pool: t.pool.iter().map(|x| x.to_string()).collect(),
+        })
+        .collect();
+    let mut rng = Rng::new(seed ^ 0x7ee5);
+    for i in 0..n_random {
+        all.push(random_tree(&mut rng, i));
+    }
+    let _ = ALL_TREES.set(all);
+}
 
 struct Pipeline {
     name: &'static str,
@@ -410,17 +507,17 @@ fn config_value(case: &Case, subset: Option<u32>) -> Value {
 
 /// outputs of the real `process` for every work file: None = no output written
 fn run_real(case: &Case, cfg_text: &str) -> Result<Vec<Option<String>>, String> {
-    let tree = &TREES[case.tree];
+    let tree = &trees()[case.tree];
     let pipeline = &PIPELINES[case.pipeline];
     let in_place = case.in_place;
     let cfg_text = cfg_text.to_owned();
     let result = std::panic::catch_unwind(move || -> Result<Vec<Option<String>>, String> {
         let resources = Resources::from_memory();
-        for f in tree.files {
+        for f in &tree.files {
             resources.write(f, &file_content(pipeline, f)).map_err(|e| format!("{:?}", e))?;
         }
         let cfg: Configuration = json5::from_str(&cfg_text).map_err(|e| format!("config rejected: {}", e))?;
-        let mut options = Options::new(tree.input).with_configuration(cfg);
+        let mut options = Options::new(tree.input.as_str()).with_configuration(cfg);
         if !in_place {
             options = options.with_output("out");
         }
@@ -429,12 +526,12 @@ fn run_real(case: &Case, cfg_text: &str) -> Result<Vec<Option<String>>, String> 
             .result()
             .map_err(|errs| format!("process errors: {}", errs.iter().map(|e| e.to_string()).collect::<Vec<_>>().join("; ")))?;
         let mut outs = Vec::new();
-        for (source, rel) in tree.work {
-            let location = if in_place { (*source).to_owned() } else { format!("out/{}", rel) };
+        for (source, rel) in &tree.work {
+            let location = if in_place { source.clone() } else { format!("out/{}", rel) };
             outs.push(resources.get(&location).ok());
         }
         // files outside the input, or not Lua, are never touched
-        for f in tree.files {
+        for f in &tree.files {
             if !tree.work.iter().any(|(s, _)| s == f) {
                 let now = resources.get(f).map_err(|e| format!("{:?}", e))?;
                 if now != file_content(pipeline, f) {
@@ -484,7 +581,7 @@ fn build_reference(tree: usize, pipeline: usize, in_place: bool) -> Result<Refer
         }
         outputs.push(row);
     }
-    let n_files = TREES[tree].work.len();
+    let n_files = trees()[tree].work.len();
     for f in 0..n_files {
         let mut seen = BTreeSet::new();
         for mask in 0..outputs.len() {
@@ -496,7 +593,7 @@ fn build_reference(tree: usize, pipeline: usize, in_place: bool) -> Result<Refer
             }
         }
     }
-    let sources = TREES[tree].work.iter().map(|(s, _)| file_content(&PIPELINES[pipeline], s)).collect();
+    let sources = trees()[tree].work.iter().map(|(s, _)| file_content(&PIPELINES[pipeline], s)).collect();
     Ok(Reference { outputs, sources })
 }
 
@@ -635,29 +732,38 @@ struct CaseOutcome {
 
 type References = BTreeMap<(usize, usize, bool), Reference>;
 
-fn check_case(case: &Case, model: &mut Model, references: &References) -> CaseOutcome {
+type SpecCache = std::collections::HashMap<(usize, String), String>;
+
+fn check_case(case: &Case, model: &mut Model, references: &References, spec_cache: &mut SpecCache) -> CaseOutcome {
     let mut outcome = CaseOutcome::default();
-    let tree = &TREES[case.tree];
+    let tree = &trees()[case.tree];
     let n_files = tree.work.len();
     let cfg_text = config_value(case, None).to_string();
     let case_json = json!({"kind": "process", "case": case, "config": cfg_text, "tree": tree.name,
-        "input": tree.input, "files": tree.files, "pipeline": PIPELINES[case.pipeline].name});
+        "input": tree.input, "files": tree.files, "pipeline": PIPELINES[case.pipeline].name,
+        "seed": SEED.load(std::sync::atomic::Ordering::Relaxed), "random_trees": trees().len() - STATIC_TREES.len()});
     let patterns = case_patterns(case);
-    // real matcher
+    // real matcher (rows cached per (tree, pattern): every call of the hook compiles the pattern)
     let mut real_matrix: Vec<Vec<bool>> = Vec::new();
     let mut invalid = None;
     for p in &patterns {
-        let mut row = Vec::new();
-        for (source, _) in tree.work {
-            match real_match(p, source) {
-                Ok(b) => row.push(b),
-                Err(e) => {
-                    invalid = Some((p.clone(), e));
-                    row.push(false);
-                }
+        let key = (case.tree, format!("real:{}", p));
+        if !spec_cache.contains_key(&key) {
+            let mut row = String::new();
+            for (source, _) in &tree.work {
+                row.push(match real_match(p, source) {
+                    Ok(true) => '1',
+                    Ok(false) => '0',
+                    Err(_) => 'E',
+                });
             }
+            spec_cache.insert(key.clone(), row);
         }
-        real_matrix.push(row);
+        let row = &spec_cache[&key];
+        if row.contains('E') {
+            invalid = Some((p.clone(), "invalid pattern".to_owned()));
+        }
+        real_matrix.push(row.chars().map(|c| c == '1').collect());
     }
     let real = run_real(case, &cfg_text);
     if let Some((p, _)) = invalid {
@@ -693,14 +799,18 @@ fn check_case(case: &Case, model: &mut Model, references: &References) -> CaseOu
     let answer = model.ask(&model_request(case, &patterns, &real_matrix, n_files));
     let predicted = parse_model_answer(&answer, n_files);
     // --- oracle: the statement with the reference matcher
-    let spec_rows: Vec<String> = if patterns.is_empty() {
-        vec![]
-    } else {
+    // reference matcher rows, cached per (tree, pattern)
+    let missing: Vec<&String> = patterns.iter().filter(|p| !spec_cache.contains_key(&(case.tree, (*p).clone()))).collect();
+    if !missing.is_empty() {
         let paths: Vec<String> = tree.work.iter().map(|(s, _)| hex(s.as_bytes())).collect();
         let reqs: Vec<String> =
-            patterns.iter().map(|p| format!("c20.globrow {} {}", hex(p.as_bytes()), paths.join(" "))).collect();
-        model.ask_batch(&reqs)
-    };
+            missing.iter().map(|p| format!("c20.globrow {} {}", hex(p.as_bytes()), paths.join(" "))).collect();
+        let answers = model.ask_batch(&reqs);
+        for (p, a) in missing.iter().zip(answers) {
+            spec_cache.insert((case.tree, (*p).clone()), a);
+        }
+    }
+    let spec_rows: Vec<String> = patterns.iter().map(|p| spec_cache[&(case.tree, p.clone())].clone()).collect();
     let spec = |p: usize, f: usize| -> Option<bool> {
         match spec_rows[p].as_bytes().get(f) {
             Some(b'1') if spec_rows[p].len() == n_files => Some(true),
@@ -782,7 +892,7 @@ fn check_case(case: &Case, model: &mut Model, references: &References) -> CaseOu
         outcome.hist.push(("rule-apply-form".into(), a.form().into()));
         outcome.hist.push(("rule-skip-form".into(), s.form().into()));
     }
-    outcome.hist.push(("tree".into(), tree.name.into()));
+    outcome.hist.push(("tree".into(), if tree.name.starts_with("random") { "random".into() } else { tree.name.clone() }));
     outcome.hist.push(("pipeline".into(), PIPELINES[case.pipeline].name.into()));
     outcome.hist.push(("mode".into(), if case.in_place { "in-place" } else { "output-dir" }.into()));
     outcome.hist.push((
@@ -799,7 +909,7 @@ fn check_case(case: &Case, model: &mut Model, references: &References) -> CaseOu
     outcome
 }
 
-fn pattern_lists(pool: &[&str], rich: bool) -> Vec<Pats> {
+fn pattern_lists(pool: &[String], rich: bool) -> Vec<Pats> {
     let mut lists = vec![Pats::None, Pats::Many(vec![])];
     for (i, p) in pool.iter().enumerate() {
         if i % 2 == 0 {
@@ -828,7 +938,7 @@ fn pattern_lists(pool: &[&str], rich: bool) -> Vec<Pats> {
     lists
 }
 
-fn random_pats(rng: &mut Rng, pool: &[&str]) -> Pats {
+fn random_pats(rng: &mut Rng, pool: &[String]) -> Pats {
     match rng.below(10) {
         0..=3 => Pats::None,
         4 => Pats::Many(vec![]),
@@ -845,10 +955,10 @@ fn generate_cases(report: &Report) -> Vec<Case> {
     let thorough = report.is_thorough();
     let mut cases = Vec::new();
     let mut rng = Rng::new(report.seed);
-    for (ti, tree) in TREES.iter().enumerate() {
+    for (ti, tree) in trees().iter().enumerate() {
         for (pi, pipeline) in PIPELINES.iter().enumerate() {
             let k = (pipeline.rules)().len();
-            let lists = pattern_lists(tree.pool, thorough);
+            let lists = pattern_lists(&tree.pool, thorough);
             for in_place in [false, true] {
                 // in-place runs repeat the sweep on a thinner list in the quick tier
                 let step = if in_place && !thorough { 3 } else { 1 };
@@ -860,6 +970,10 @@ fn generate_cases(report: &Report) -> Vec<Case> {
                                 continue;
                             }
                             if !thorough && ti != 0 && (ai * 31 + si * 17 + site) % 4 != 0 {
+                                continue;
+                            }
+                            // seeded random trees: a thin slice of the sweep, they mostly serve the random part
+                            if ti >= STATIC_TREES.len() && (ai * 31 + si * 17 + site) % (if thorough { 16 } else { 40 }) != 0 {
                                 continue;
                             }
                             let mut case = Case {
@@ -879,7 +993,7 @@ fn generate_cases(report: &Report) -> Vec<Case> {
                     }
                 }
                 // random multi-site
-                let n = if thorough { 6000 } else { 500 };
+                let n = if thorough { 2500 } else { 500 };
                 for _ in 0..n {
                     let mut case = Case {
                         tree: ti,
@@ -889,11 +1003,11 @@ fn generate_cases(report: &Report) -> Vec<Case> {
                         rules: Vec::new(),
                     };
                     if rng.chance(1, 2) {
-                        case.top = (random_pats(&mut rng, tree.pool), random_pats(&mut rng, tree.pool));
+                        case.top = (random_pats(&mut rng, &tree.pool), random_pats(&mut rng, &tree.pool));
                     }
                     for _ in 0..k {
                         case.rules.push(if rng.chance(2, 3) {
-                            (random_pats(&mut rng, tree.pool), random_pats(&mut rng, tree.pool))
+                            (random_pats(&mut rng, &tree.pool), random_pats(&mut rng, &tree.pool))
                         } else {
                             (Pats::None, Pats::None)
                         });
@@ -927,7 +1041,7 @@ fn generate_cases(report: &Report) -> Vec<Case> {
 
 fn part_b(report: &mut Report, only: Option<Vec<Case>>) {
     let mut references: References = BTreeMap::new();
-    for ti in 0..TREES.len() {
+    for ti in 0..trees().len() {
         for pi in 0..PIPELINES.len() {
             for in_place in [false, true] {
                 match build_reference(ti, pi, in_place) {
@@ -939,7 +1053,7 @@ fn part_b(report: &mut Report, only: Option<Vec<Case>>) {
                             kind: "oracle".into(),
                             check: "reference-runs".into(),
                             what: format!("cannot build the unfiltered reference outputs: {}", e),
-                            input: json!({"kind": "reference", "tree": TREES[ti].name, "pipeline": PIPELINES[pi].name, "in_place": in_place}),
+                            input: json!({"kind": "reference", "tree": trees()[ti].name, "pipeline": PIPELINES[pi].name, "in_place": in_place}),
                             failing_input_found: true,
                         });
                         return;
@@ -960,7 +1074,8 @@ fn part_b(report: &mut Report, only: Option<Vec<Case>>) {
             .map(|c| {
                 s.spawn(move || {
                     let mut model = Model::spawn();
-                    c.iter().map(|case| (case.clone(), check_case(case, &mut model, references))).collect::<Vec<_>>()
+                    let mut spec_cache = SpecCache::new();
+                    c.iter().map(|case| (case.clone(), check_case(case, &mut model, references, &mut spec_cache))).collect::<Vec<_>>()
                 })
             })
             .collect();
@@ -995,13 +1110,30 @@ fn part_b(report: &mut Report, only: Option<Vec<Case>>) {
     }
 }
 
+static SEED: std::sync::atomic::AtomicU64 = std::sync::atomic::AtomicU64::new(0);
+
 pub fn run(report: &mut Report, replay: Option<&str>) {
     report.rule = "Part A compares the real FilterPattern with the Lean reference glob on an exhaustive pattern x path grid \
         (every pair counts as an evaluation). Part B runs the real process() on memory trees with filters at one site \
-        (exhaustive sweep over site x apply list x skip list) and at several sites (seeded random); a case is non-trivial \
+        (exhaustive sweep over site x apply list x skip list) and at several sites (seeded random), on three fixed trees \
+        (inputs '', './src/../src/', a single file) and on seeded random trees with pattern pools derived from their paths; a case is non-trivial \
         when, by the reference matcher, at least one (file, site) verdict is yes and at least one is no, i.e. the filters \
         really discriminate; distinct = distinct (tree, pipeline, mode, filters)."
         .to_owned();
+    let mut tree_seed = report.seed;
+    let mut n_random = if report.is_thorough() { 8 } else { 4 };
+    if let Some(path) = replay {
+        let text = std::fs::read_to_string(path).unwrap_or_default();
+        let v: Value = serde_json::from_str(&text).unwrap_or(Value::Null);
+        let input = if v.get("input").is_some() { v["input"].clone() } else { v.clone() };
+        if let (Some(sd), Some(n)) = (input["seed"].as_u64(), input["random_trees"].as_u64()) {
+            tree_seed = sd;
+            n_random = n as usize;
+        }
+    }
+    SEED.store(tree_seed, std::sync::atomic::Ordering::Relaxed);
+    init_trees(tree_seed, n_random);
+    report.count("random_trees", n_random as u64);
     if let Some(path) = replay {
         let text = std::fs::read_to_string(path).unwrap_or_default();
         let v: Value = serde_json::from_str(&text).unwrap_or(Value::Null);
